@@ -56,6 +56,21 @@ def state_case(rep, spec, index):
         return
     j = pair(j)
     y_ref = j[0] / (j[0] + j[1])
+    # the same object asked about the same state with the OTHER model in between: both answers must equal those of
+    # fresh objects (the selected activity model is honoured, whatever was asked before)
+    from pyvaporation.pervaporation import Pervaporation
+
+    other = "UNIQUAC" if model == "NRTL" else "NRTL"
+    st_o, j_o = _guard(lambda: pv.calculate_partial_fluxes(T, x, prec, tp, pp, calculation_type=other))
+    st_f, j_f = _guard(lambda: Pervaporation(fc.membrane, fc.mix).calculate_partial_fluxes(T, x, prec, tp, pp, calculation_type=other))
+    if st_o == "ok" and st_f == "ok":
+        rep.require("same object, other model: equals a fresh object's answer (bitwise)", pair(j_o) == pair(j_f), dict(case, second_model=other),
+                    {"same_object": pair(j_o), "fresh_object": pair(j_f)})
+    elif "slow" not in (st_o, st_f):
+        rep.require("same object, other model: equals a fresh object's answer (bitwise)", st_o == st_f, dict(case, second_model=other), {"same_object": st_o, "fresh_object": st_f})
+    st_a, j_a = _guard(lambda: pv.calculate_partial_fluxes(T, x, prec, tp, pp, calculation_type=model))
+    if st_a == "ok":
+        rep.require("same object, first model again: unchanged (bitwise)", pair(j_a) == j, case, {"first": j, "again": pair(j_a)})
 
     def same_args(name, taps):
         rep.require(f"{name}: exactly one flux calculation inside", len(taps) == 1, case, {"calls": len(taps)})
